@@ -78,6 +78,9 @@ def real_cases(menu, filters_index):
         dict(prefix=[], threads=[{"k": "store", "a": 3}, {"k": "store", "a": 4}, {"k": "get", "a": 3}]),
         dict(prefix=[], threads=[{"k": "store", "a": 5}, {"k": "store", "a": 6}, {"k": "query", "f": q["authorA_k30000"]}]),
         dict(prefix=[], threads=[{"k": "store", "a": 1}, {"k": "store", "a": 10}, {"k": "query", "f": q["ids1_10"]}]),
+        # two stores that are each newer than everything stored so far, watched through a time window between them
+        dict(prefix=[], threads=[{"k": "store", "a": 1}, {"k": "store", "a": 2}, {"k": "query", "f": q["since11"]}]),
+        dict(prefix=[{"k": "store", "a": 3}], threads=[{"k": "store", "a": 2}, {"k": "store", "a": 4}, {"k": "query", "f": q["since12"]}]),
         dict(prefix=[{"k": "store", "a": 7}], threads=[{"k": "store", "a": 12}, {"k": "store", "a": 5}, {"k": "query", "f": q["tag_t_x"]}]),
         # a deletion request racing with the foreign / own events it names (11 = B: own 2, foreign 1; 12, 13 = A: address x)
         dict(prefix=[], threads=[{"k": "store", "a": 1}, {"k": "store", "a": 11}, {"k": "get", "a": 1}]),
@@ -186,6 +189,84 @@ def judge_file(tp):
     return rejected
 
 
+def run_burst(bindir, profile, wd, tag, n, readers, gate=True, timeout=240):
+    """one sustained single-writer / multi-reader run (burstdrv); returns dict(outcome=ok|hang|crash, bad=[...], summary)"""
+    tp = os.path.join(wd, "burst_%s.ndjson" % tag)
+    cmd = [os.path.join(bindir, "burstdrv"), "--n", str(n), "--readers", str(readers), "--out", tp, "--gate", "1" if gate else "0"]
+    try:
+        p = subprocess.run(cmd, stdout=subprocess.PIPE, stderr=subprocess.STDOUT, text=True, timeout=timeout)
+        rc = p.returncode
+        out = p.stdout
+    except subprocess.TimeoutExpired:
+        rc, out = 3, ""
+    res = dict(tag=tag, profile=profile, gate=gate, n=n, readers=readers, outcome="ok", bad=[], summary={}, lines=0, note="")
+    if rc == 3:
+        res["outcome"] = "hang"
+        try:
+            res["note"] = json.loads(open(tp).read().splitlines()[-1]).get("note", "")
+            res["summary"] = dict(ungated_growth=json.loads(open(tp).read().splitlines()[-1]).get("ungated_growth", 0))
+        except Exception:
+            pass
+        return res
+    if rc != 0:
+        res["outcome"] = "crash"
+        res["note"] = "burstdrv ended with status %s" % rc
+        return res
+    try:
+        res["summary"] = json.loads(out.strip().splitlines()[-1])
+    except Exception:
+        raise C.ToolError("burstdrv printed no summary: %s" % out[-500:])
+    rc2, tout = C.run_tlc("TraceBurst.tla", "TraceBurst.cfg", env={"TRACE": tp}, workers=1, timeout=900, heap="3g", stack="1g")
+    done = C.tlc_json_lines(tout, "BURST")
+    if not done or "Model checking completed" not in tout:
+        raise C.ToolError("TraceBurst failed on %s:\n%s" % (tp, tout[-2000:]))
+    res["lines"] = done[-1]["n"]
+    res["bad"] = C.tlc_json_lines(tout, "BAD")
+    return res
+
+
+def burst_checks(V, tier, wd):
+    """sustained stress judged by TraceBurst.tla (gated: see burstdrv.rs) + the ungated probe of the known growth race"""
+    runs = []
+    plan = [("dev", 600, 6), ("release", 4000, 6)] if tier == "quick" else [("dev", 2500, 6), ("dev", 1500, 12), ("release", 40000, 6), ("release", 20000, 14)]
+    for i, (profile, n, readers) in enumerate(plan):
+        bindir = C.build_harness(profile, bins=["burstdrv"])
+        r = run_burst(bindir, profile, wd, "g%d" % i, n, readers, gate=True)
+        runs.append(r)
+        growth = "GrowthRace" if r["summary"].get("ungated_growth", 0) else "Burst"
+        if r["outcome"] != "ok":
+            V.violation("C14:%s:%s" % (growth, r["outcome"]),
+                        "sustained stress (%s profile, 1 writer storing %d events, %d readers): %s - %s" % (profile, n, readers, r["outcome"], r["note"]),
+                        dict(kind="burst", profile=profile, n=n, readers=readers, gate=True))
+        seen = {}
+        for b in r["bad"]:
+            key = "C14:%s:%s:q%s" % (growth, b["why"], b["q"])
+            seen[key] = seen.get(key, 0) + 1
+            if seen[key] > 2:
+                continue
+            V.violation(key, "sustained stress (%s profile): reader %s, query type %s near event %s: %s - between %d and %d stores "
+                        "had taken effect, the answer is exact for prefixes %d..%d only, the reader was already at %d; %s" % (
+                            profile, b["t"], b["q"], b["j"], b["why"], b["lo"], b["hi"], b["klo"], b["khi"], b["at"], b["note"]),
+                        dict(kind="burst", profile=profile, n=n, readers=readers, gate=True, observation=b))
+        C.log("[C14] burst %s: %d stores, %d readers, %s observations (%d judged by TraceBurst), outcome %s, %d unexplained" % (
+            profile, n, readers, r["summary"].get("observations", "?"), r["lines"], r["outcome"], len(r["bad"])))
+    # the known growth race (F-C14-2): same workload without the gate, dev profile (2048-byte chunks)
+    probes = []
+    bindir = C.build_harness("dev", bins=["burstdrv"])
+    for i in range(6 if tier == "quick" else 12):
+        if tier == "quick" and any(x != "ok" for x in probes):
+            break           # shown once; the thorough tier counts how often
+        r = run_burst(bindir, "dev", wd, "u%d" % i, 400, 6, gate=False, timeout=120)
+        probes.append(r["outcome"] if not r["bad"] else "garbage")
+        if r["outcome"] != "ok" or r["bad"]:
+            what = r["outcome"] if r["outcome"] != "ok" else "garbage"
+            V.violation("C14:GrowthRace:%s" % what,
+                        "readers running while a store grows the event map (dev profile, no gate): %s %s" % (what, r["note"]),
+                        dict(kind="burst", profile="dev", n=400, readers=6, gate=False))
+    C.log("[C14] growth-race probe (ungated): %s" % probes)
+    return runs, probes
+
+
 def run(prop, tier, seed, replay=None):
     V = C.Verdict(prop, tier, seed, "model_checking")
     rnd = random.Random("C14-%d" % seed)
@@ -198,9 +279,12 @@ def run(prop, tier, seed, replay=None):
     flist = [F.flt(ids=[1, 3]), F.flt(ids=[1, 2]), F.flt(ids=[1, 10]), F.flt(authors=[1]), F.flt(authors=[1], kinds=[30000]),
              F.flt(tags=[(s_t, [s_x])]), F.flt(ids=[1, 2, 3, 4, 5, 6]), F.flt(authors=[1, 2], limit=3),
              F.flt(authors=[1, 2]), F.flt(authors=[1, 2], kinds=[1]), F.flt(authors=[1, 2], tags=[(s_t, [s_x])]),
-             F.flt(kinds=[1, 1059], tags=[(s_t, [s_x]), (u["strs"].index(b"p".hex()), [u["pk_sidx"][0]])])]
+             F.flt(kinds=[1, 1059], tags=[(s_t, [s_x]), (u["strs"].index(b"p".hex()), [u["pk_sidx"][0]])]),
+             # time windows between the events' created_at values (10 11 12 13 15 20 30 31 32)
+             F.flt(since=11), F.flt(since=12), F.flt(since=16), F.flt(since=21), F.flt(since=31), F.flt(until=10),
+             F.flt(since=11, until=20, limit=2)]
     q = dict(ids1_3=0, ids1_2=1, ids1_10=2, authorA=3, authorA_k30000=4, tag_t_x=5, ids_many=6, authors_limit=7,
-             authors12=8, authors12_k1=9, authors12_tx=10, kinds_tx=11)
+             authors12=8, authors12_k1=9, authors12_tx=10, kinds_tx=11, since11=12, since12=13, since21=15)
     fpath = os.path.join(wd, "filters.json")
     json.dump(flist, open(fpath, "w"))
 
@@ -277,6 +361,7 @@ def run(prop, tier, seed, replay=None):
     for c, why in lost:
         V.violation("C14:died:%s" % c.get("mode"), "the process died or hung running threads %s" % c["threads"],
                     dict(kind="schedule", case=c, history=[]))
+    bursts, probes = ([], []) if replay else burst_checks(V, tier, wd)
     distinct = len({json.dumps([c["threads"], c.get("sched")]) for c in cases})
     V.coverage = dict(
         states=mst, transitions=mtr, traces_validated_against_impl=nhist,
@@ -287,6 +372,10 @@ def run(prop, tier, seed, replay=None):
              "(quick tier: 60 seed-sampled schedules per operation set); (b) free-running rounds started at a barrier. "
              "distinct = distinct (operation set, schedule)",
         schedules_in_cover=nsched, trace_lines=nlines, lost_batches=len(lost),
+        sustained_stress=[dict(profile=r["profile"], stores=r["n"], readers=r["readers"], gate=r["gate"], outcome=r["outcome"],
+                               observations=r["summary"].get("observations"), judged_by_TraceBurst=r["lines"],
+                               gated_stores=r["summary"].get("gated_stores"), unexplained=len(r["bad"])) for r in bursts],
+        growth_race_probe=probes,
     )
     V.assumptions = ["linearizability is judged against the implementation's own sequential transition table (every order of every "
                      "subset of the case's operations, each on a fresh store)",
